@@ -218,65 +218,106 @@ def errKinds (fs : List (Option Finding)) : List String :=
     | _, _ => false
   (if nilf then ["nilf"] else []) ++ (if noadv then ["noadv"] else []) ++ (if noid then ["noid"] else []) ++ (if mism then ["mismatch"] else [])
 
+/-- a `scan` case. `wheel` (op `gate`, e = 2): two more detectors, which find nothing, both require the real filesystem extractor
+python/wheelegg, which `EnableRequiredExtractors` therefore appends once: it runs over every root (finding nothing in these
+trees) and contributes a status entry per root; the detector phase is otherwise unchanged. e = 3: they require the STANDALONE
+windows/dismpatch, whose non-Windows build has no requirements and fails with "only supported on Windows": one failed status -/
+def scanReply (auto : Char) (nfx roots sts dets : String) : String :=
+  let wheel := auto = '2'
+  match nfx.toNat?, (roots.splitOn "|").mapM parseRoot, (listOf sts "|").mapM parseTail, (listOf dets "|").mapM parseDet with
+  | some nfx, some roots, some sts, some dets =>
+    -- filesystem.Run: nothing at all without extractors
+    let fsAcc : FsAcc := if nfx = 0 && !wheel then {} else roots.foldl (fun a r =>
+        let a' := runRoot nfx r a
+        if wheel then { a' with status := a'.status ++ [⟨"python/wheelegg", .succeeded⟩] } else a') {}
+    -- standalone.Run: an extractor that fails contributes nothing (its packages were created, though)
+    let stStep := fun (a : FsAcc × Nat) (s : List PSpec × Bool × List Finding) =>
+      let (ps, nx) := mkPkgs a.1.next s.1
+      let name := s!"sx{a.2}"
+      if s.2.1 then ({ a.1 with next := nx, status := a.1.status ++ [⟨name, .failed⟩] }, a.2 + 1)
+      else ({ a.1 with next := nx, pkgs := a.1.pkgs ++ ps, findings := a.1.findings ++ s.2.2,
+                       status := a.1.status ++ [⟨name, .succeeded⟩] }, a.2 + 1)
+    let (stAcc0, _) := sts.foldl stStep (({ next := fsAcc.next } : FsAcc), 0)
+    let stAcc := if auto = '3' then { stAcc0 with status := stAcc0.status ++ [⟨"windows/dismpatch", .failed⟩] } else stAcc0
+    let mkDet := fun (d : (DSpec × Bool × Bool) × Nat) =>
+      let ((spec, err, canc), k) := d
+      let scan : PkgMap → List (Option Finding) × Bool := match spec with
+        | .const fs => fun _ => (fs, err)
+        | .query t n a => fun px => ((getSpecific px n t).map fun p => some ⟨1000 + 100 * k + p.id, a, 1000 + 100 * k + p.id, pad3 p.id, ["stale"]⟩, err)
+      (⟨s!"det{k}", scan, canc⟩ : Detector)
+    let ds := (dets.zip (List.range dets.length)).map mkDet ++
+        (if auto = '2' || auto = '3' then [(⟨"detgate0", fun _ => ([], false), false⟩ : Detector), ⟨"detgate1", fun _ => ([], false), false⟩] else [])
+    let inp : ScanIn := ⟨fsAcc.pkgs, fsAcc.findings, fsAcc.status, stAcc.pkgs, stAcc.findings, stAcc.status, ds⟩
+    let out := scanTail inp
+    let pkgs := inp.fsPkgs ++ inp.stPkgs
+    -- query pool: types and names in order of first appearance in the case, plus an absent one
+    let allSpecs := (roots.flatMap fun r => r.flatMap (·.pkgs)) ++ sts.flatMap (·.1)
+    let types := dedup (allSpecs.filterMap fun p => p.map (·.1)) ++ ["zz"]
+    let names := dedup (allSpecs.filterMap fun p => p.map (·.2)) ++ ["zz"]
+    let px := Index.new pkgs
+    let idx := if out.calls.isEmpty then "-" else observe types names (getAll px) (getAllOfType px) (getSpecific px)
+    let sidx := if ds.isEmpty then "-" else observe types names (specAll pkgs) (specOfType pkgs) (specSpecific pkgs)
+    let exF := inp.fsFindings ++ inp.stFindings
+    let cons := consistentB (specFindings ds px)
+    let nocancel := noCancelB ds
+    let consall := consistentB (allFindings inp)
+    -- specification: consistent ⇒ every finding of the scan; otherwise nothing inconsistent (see `sexf`)
+    let sfind := if consall then exF ++ (specFindings ds px).filterMap id else []
+    -- the documented order, computed on KEYS only (a strict total order: the sorted sequence is unique)
+    let sfkeys := isort optKeyLt (sfind.map sortKey)
+    let splug := isort ltBytes ((inp.fsStatus ++ inp.stStatus ++ specStatus ds px).map fun (s : Status) => nameBytes s.name)
+    let model :=
+      if out.panics then "panic" else
+      s!"st={if out.failed then "failed" else "ok"} err={errStr out.err} calls={joinWith "," (out.calls.map (·.1))} idx={idx} idxsame=1 " ++
+      s!"find={joinWith "," (out.findings.map findingStr)} findset={joinWith "," (sortStrs (out.findings.map findingStr))} " ++
+      s!"fkeys={joinWith "," (out.findings.map fun f => keyStr (sortKey f))} " ++
+      s!"plug={joinWith "," (out.pluginStatus.map statusStr)} plugset={joinWith "," (sortStrs (out.pluginStatus.map statusStr))} " ++
+      s!"plugkeys={joinWith "," (out.pluginStatus.map fun s => hexB (nameBytes s.name))} pk={idsStr out.packages true} mut=0"
+    model ++ s!" wf={boolStr nocancel} cons={boolStr cons} consall={boolStr consall} exf={boolStr (!exF.isEmpty)} " ++
+      s!"sst={if consall then "ok" else "failed"} sfind={joinWith "," (sortStrs (sfind.map findingStr))} " ++
+      -- inconsistent findings: nothing may be emitted — except the extractors' own findings when THEY are consistent and it
+      -- was the detectors' findings that `detector.Run` discarded (the disjunct of C20_inconsistent_scan_partial)
+      s!"sexf={if !cons && consistentB (exF.map some) then joinWith "," (sortStrs (exF.map findingStr)) else "-"} " ++
+      -- the kinds of inconsistency present among all findings: the failure reason must be one of them
+      s!"serrs={joinWith "," (errKinds (allFindings inp))} " ++
+      s!"splugset={joinWith "," (sortStrs ((inp.fsStatus ++ inp.stStatus ++ specStatus ds px).map statusStr))} " ++
+      s!"sfkeys={joinWith "," (sfkeys.map keyStr)} splugkeys={joinWith "," (splug.map hexB)} " ++
+      s!"sdet={joinWith "," ((specStatus ds px).map statusStr)} sidx={sidx} scalls={joinWith "," (ds.map (·.name))}"
+  | _, _, _, _ => "bad-op"
+
 def handle (line : String) : String :=
   match line.splitOn " " with
-  | ["scan", nfx, roots, sts, dets] =>
-    match nfx.toNat?, (roots.splitOn "|").mapM parseRoot, (listOf sts "|").mapM parseTail, (listOf dets "|").mapM parseDet with
-    | some nfx, some roots, some sts, some dets =>
-      -- filesystem.Run: nothing at all without extractors
-      let fsAcc : FsAcc := if nfx = 0 then {} else roots.foldl (fun a r => runRoot nfx r a) {}
-      -- standalone.Run: an extractor that fails contributes nothing (its packages were created, though)
-      let stStep := fun (a : FsAcc × Nat) (s : List PSpec × Bool × List Finding) =>
-        let (ps, nx) := mkPkgs a.1.next s.1
-        let name := s!"sx{a.2}"
-        if s.2.1 then ({ a.1 with next := nx, status := a.1.status ++ [⟨name, .failed⟩] }, a.2 + 1)
-        else ({ a.1 with next := nx, pkgs := a.1.pkgs ++ ps, findings := a.1.findings ++ s.2.2,
-                         status := a.1.status ++ [⟨name, .succeeded⟩] }, a.2 + 1)
-      let (stAcc, _) := sts.foldl stStep (({ next := fsAcc.next } : FsAcc), 0)
-      let mkDet := fun (d : (DSpec × Bool × Bool) × Nat) =>
-        let ((spec, err, canc), k) := d
-        let scan : PkgMap → List (Option Finding) × Bool := match spec with
-          | .const fs => fun _ => (fs, err)
-          | .query t n a => fun px => ((getSpecific px n t).map fun p => some ⟨1000 + 100 * k + p.id, a, 1000 + 100 * k + p.id, pad3 p.id, ["stale"]⟩, err)
-        (⟨s!"det{k}", scan, canc⟩ : Detector)
-      let ds := (dets.zip (List.range dets.length)).map mkDet
-      let inp : ScanIn := ⟨fsAcc.pkgs, fsAcc.findings, fsAcc.status, stAcc.pkgs, stAcc.findings, stAcc.status, ds⟩
-      let out := scanTail inp
-      let pkgs := inp.fsPkgs ++ inp.stPkgs
-      -- query pool: types and names in order of first appearance in the case, plus an absent one
-      let allSpecs := (roots.flatMap fun r => r.flatMap (·.pkgs)) ++ sts.flatMap (·.1)
-      let types := dedup (allSpecs.filterMap fun p => p.map (·.1)) ++ ["zz"]
-      let names := dedup (allSpecs.filterMap fun p => p.map (·.2)) ++ ["zz"]
-      let px := Index.new pkgs
-      let idx := if out.calls.isEmpty then "-" else observe types names (getAll px) (getAllOfType px) (getSpecific px)
-      let sidx := if ds.isEmpty then "-" else observe types names (specAll pkgs) (specOfType pkgs) (specSpecific pkgs)
-      let exF := inp.fsFindings ++ inp.stFindings
-      let cons := consistentB (specFindings ds px)
-      let nocancel := noCancelB ds
-      let consall := consistentB (allFindings inp)
-      -- specification: consistent ⇒ every finding of the scan; otherwise nothing inconsistent (see `sexf`)
-      let sfind := if consall then exF ++ (specFindings ds px).filterMap id else []
-      -- the documented order, computed on KEYS only (a strict total order: the sorted sequence is unique)
-      let sfkeys := isort optKeyLt (sfind.map sortKey)
-      let splug := isort ltBytes ((inp.fsStatus ++ inp.stStatus ++ specStatus ds px).map fun (s : Status) => nameBytes s.name)
-      let model :=
-        if out.panics then "panic" else
-        s!"st={if out.failed then "failed" else "ok"} err={errStr out.err} calls={joinWith "," (out.calls.map (·.1))} idx={idx} idxsame=1 " ++
-        s!"find={joinWith "," (out.findings.map findingStr)} findset={joinWith "," (sortStrs (out.findings.map findingStr))} " ++
-        s!"fkeys={joinWith "," (out.findings.map fun f => keyStr (sortKey f))} " ++
-        s!"plug={joinWith "," (out.pluginStatus.map statusStr)} plugset={joinWith "," (sortStrs (out.pluginStatus.map statusStr))} " ++
-        s!"plugkeys={joinWith "," (out.pluginStatus.map fun s => hexB (nameBytes s.name))} pk={idsStr out.packages true} mut=0"
-      model ++ s!" wf={boolStr nocancel} cons={boolStr cons} consall={boolStr consall} exf={boolStr (!exF.isEmpty)} " ++
-        s!"sst={if consall then "ok" else "failed"} sfind={joinWith "," (sortStrs (sfind.map findingStr))} " ++
-        -- inconsistent findings: nothing may be emitted — except the extractors' own findings when THEY are consistent and it
-        -- was the detectors' findings that `detector.Run` discarded (the disjunct of C20_inconsistent_scan_partial)
-        s!"sexf={if !cons && consistentB (exF.map some) then joinWith "," (sortStrs (exF.map findingStr)) else "-"} " ++
-        -- the kinds of inconsistency present among all findings: the failure reason must be one of them
-        s!"serrs={joinWith "," (errKinds (allFindings inp))} " ++
-        s!"splugset={joinWith "," (sortStrs ((inp.fsStatus ++ inp.stStatus ++ specStatus ds px).map statusStr))} " ++
-        s!"sfkeys={joinWith "," (sfkeys.map keyStr)} splugkeys={joinWith "," (splug.map hexB)} " ++
-        s!"sdet={joinWith "," ((specStatus ds px).map statusStr)} sidx={sidx} scalls={joinWith "," (ds.map (·.name))}"
-    | _, _, _, _ => "bad-op"
+  | ["scan", nfx, roots, sts, dets] => scanReply '1' nfx roots sts dets
+  -- gate <e><v><r><p> + a scan case: the precondition chain at the head of Scan. e: 0 = a detector requires an extractor that is in
+  -- neither list.go, 1 = nothing required, 2 = python/wheelegg required (gets enabled), 3 = the standalone windows/dismpatch required (gets enabled; its non-Windows build fails when run); v: 0 = a plugin's requirements are not met;
+  -- r: 0 = no scan root, 1 = the case's roots, 2 = at least two roots; p: 1 = PathsToExtract set.
+  -- model: `preCheck` / `scanHead`; specification: `runsB` / `specReason` (sgate = '-' iff the phases must run)
+  -- cscan <l|d|e> + a single-root scan case: the same scan through ScanContainer, the root being the one layer of an image (d: a decoy
+  -- scan root is preset and must be overwritten; e: an image without layers — "no chain layers found", nothing runs)
+  | ["cscan", v, nfx, roots, sts, dets] =>
+    if (roots.splitOn "|").length != 1 then "bad-op" else
+    if v = "e" then "st=failed gerr=nolayers gcalls=- gx=0 gn=0 sgate=nolayers"
+    else if v = "l" || v = "d" then
+      let rep := scanReply '1' nfx roots sts dets
+      if rep = "bad-op" then rep else rep ++ " gerr=- sgate=-"
+    else "bad-op"
+  | ["gate", flags, nfx, roots, sts, dets] =>
+    match flags.toList with
+    | [e, v, r, p] =>
+      if !("0123".toList.contains e && "01".toList.contains v && "012".toList.contains r && "01".toList.contains p) then "bad-op" else
+      let nr := (roots.splitOn "|").length
+      let nroots := if r = '0' then 0 else if r = '1' then nr else max 2 nr
+      let (eOK, vOK, paths) := (e != '0', v != '0', p == '1')
+      let reason : Option PreErr → String
+        | none => "-" | some .enable => "enable" | some .invalid => "invalid" | some .noRoot => "noroot" | some .severalRoots => "several"
+      let sg := if runsB eOK vOK nroots paths then "-" else reason (specReason eOK vOK nroots paths)
+      match preCheck eOK vOK nroots paths with
+      | some err => s!"st=failed gerr={reason (some err)} gcalls=- gx=0 gn=0 sgate={sg}"
+      | none =>
+        if r = '2' || p = '1' then "bad-op" else      -- an unblocked case runs over the case's own roots, all files
+        let rep := scanReply e nfx roots sts dets
+        if rep = "bad-op" then rep else rep ++ s!" gerr=- sgate={sg}"
+    | _ => "bad-op"
   -- the generator reports the fields of detector.Advisory it enumerated by reflection (evidence only); for the model an
   -- advisory's content is its body number, equal iff the advisories are deeply equal
   | ["advfields"] => "ok=1"
